@@ -161,6 +161,36 @@ def hostile_env_scripts(rng, n):
     return out
 
 
+def budget_scripts(rng, n):
+    """Model-free scripts under a runtime's cooperative budget (tokio's): the receiver task may do k transport reads per poll of the
+    task, a further read is refused (Pending although the data is there) and woken only after the task has given control back.  One
+    source's backlog is already in its stream's buffer (handing it out needs no read), the others have a message that needs a read;
+    the receiver is called back to back, so the task never yields by itself."""
+    out = []
+    for i in range(n):
+        nk = rng.randint(2, 4)
+        keys = ["g%d" % j for j in range(1, nk + 1)]
+        s = [{"a": "Insert", "k": k} for k in keys]
+        for k in keys:
+            s += [{"a": "Nop"}, {"a": "Poll"}]                         # every stream polled once, waits for its waker
+        busy = keys[i % nk]
+        backlog = rng.randint(20, 90)
+        s += [{"a": "Buffered", "k": busy}, {"a": "Budget", "n": 1 + i % 3}]
+        for _ in range(backlog):
+            s.append({"a": "Produce", "k": busy})
+        s.append({"a": "Wake", "k": busy})
+        for k in keys:
+            if k != busy:
+                for _ in range(rng.randint(1, 2)):
+                    s.append({"a": "Produce", "k": k})
+                s.append({"a": "Wake", "k": k})
+        for _ in range(backlog + 2 * nk + 12):
+            s += [{"a": "Nop"}, {"a": "Poll"}]
+        s.append({"a": "Nop"})
+        out.append(s)
+    return out
+
+
 def reconnect_scripts(rng, n):
     """Model-free scripts: a new connection registers under a key that is still in the queue (identity reuse while the old
     connection is half-open), at rest or inside the unlocked window of a poll (also of that very stream), with the old stream
@@ -254,6 +284,7 @@ def run_fq(chk, prefixes, nsim, nstarve, nrand, depth=300):
                            ("starve", starvation_scripts(rng, nstarve)),
                            ("random", random_scripts(rng, nrand)),
                            ("hostile-env", hostile_env_scripts(rng, max(20, nstarve // 2))),
+                           ("budget", budget_scripts(rng, max(12, nstarve // 4))),
                            ("reconnect", reconnect_scripts(rng, max(40, nstarve)))):
         viols, st = replay_and_validate(chk, scripts, label)
         all_stats[label] = {k: v for k, v in st.items() if k != "out"}
